@@ -156,10 +156,10 @@ fn play(ls: &mut Ls, root: &Path, w: &mut World, ver: &mut Versions, s: &Step) -
         Step::Delete { f } => {
             let u = uri(root, f);
             ls.will_delete(&u)?;
+            std::fs::remove_file(root.join(f)).expect("remove on disk");
             if w.open.contains_key(f) {
                 ls.did_close(&u)?;
             }
-            std::fs::remove_file(root.join(f)).expect("remove on disk");
         }
         Step::Create { f } => {
             vcore::util::write_file(&root.join(f), "");
@@ -373,15 +373,23 @@ fn execute(env: &Env, scratch: &Scratch, h: &Hist) -> Verdict {
         }
         // (2) every open document, analysed again
         let open: Vec<(String, String)> = w.open.iter().map(|(a, b)| (a.clone(), b.clone())).collect();
+        // (2a) what the editor currently shows for the other open documents:
+        // the diagnostics last published for them, before anything is re-analysed
+        let mut stale: Vec<(String, Vec<String>)> = vec![];
+        for (f, _) in &open {
+            if touched.as_ref() == Some(f) {
+                continue;
+            }
+            if let Some(p) = ls.published.get(&uri(&lroot, f)) {
+                let shown = normalise(&p.diags, &lroot);
+                rep.compared += 1;
+                if shown != truth[f] {
+                    stale.push((f.clone(), shown));
+                }
+            }
+        }
         for (f, t) in &open {
             let u = uri(&lroot, f);
-            if let Some(p) = ls.published.get(&u)
-                && normalise(&p.diags, &lroot) != truth[f]
-            {
-                // shown to the user until the document is touched again; the
-                // server never re-publishes dependents (not asserted here)
-                rep.stale_views += 1;
-            }
             let st = Step::Change {
                 f: f.clone(),
                 text: t.clone(),
@@ -405,7 +413,9 @@ fn execute(env: &Env, scratch: &Scratch, h: &Hist) -> Verdict {
         if ls.nonempty_publishes > 0 || truth.values().any(|v| !v.is_empty()) {
             rep.diag_seen = true;
         }
-        if mism.is_empty() {
+        // pure staleness: the difference disappears once the document is analysed again
+        stale.retain(|(f, _)| !mism.iter().any(|m| &m.file == f));
+        if mism.is_empty() && stale.is_empty() {
             continue;
         }
         // a background run the protocol model did not predict makes the server
@@ -417,6 +427,27 @@ fn execute(env: &Env, scratch: &Scratch, h: &Hist) -> Verdict {
         }
         if ls.unexpected_bg {
             return Verdict::OffModel;
+        }
+        // LISTED ROOT CAUSE "published-stale:dependent-not-republished": the server
+        // publishes only for the document named in didOpen/didChange, so an open
+        // document keeps showing the diagnostics of its last analysis after
+        // another document changed.
+        if !stale.is_empty() {
+            if h.flags.allow_known {
+                let mut message = format!(
+                    "after step {i} ({}) the diagnostics last published for an open document are outdated (they equal a fresh server's once the document is analysed again):\n",
+                    s.kind()
+                );
+                for (f, shown) in &stale {
+                    message.push_str(&format!("  {f} — last published:\n{}", diff_lines(shown, &truth[f])));
+                }
+                listed.push(("published-stale:dependent-not-republished".into(), message));
+            } else {
+                rep.stale_views += stale.len() as u32;
+            }
+        }
+        if mism.is_empty() {
+            continue;
         }
         // ---- attribute: does a listed root cause explain all of it?
         let div = w.divergence();
@@ -508,6 +539,28 @@ fn execute(env: &Env, scratch: &Scratch, h: &Hist) -> Verdict {
     Verdict::Ok(rep)
 }
 
+/// A server that falls silent (watchdog) is inconclusive, never a violation.
+/// It has been seen to happen once in several hundred histories on a heavily
+/// loaded machine and not to repeat on the same history, so the history is
+/// played once more on new servers before the run gives up; every expiry is
+/// counted in the evidence and its history saved.
+fn execute_retrying(ctx: &Ctx, env: &Env, h: &Hist) -> Verdict {
+    let scratch = Scratch::new("c07");
+    match execute(env, &scratch, h) {
+        Verdict::Hang(m) => {
+            ctx.note_add("watchdog_expiries_retried", 1);
+            let dir = format!("{}/replays/C07", vcore::run::out_root());
+            let _ = std::fs::create_dir_all(&dir);
+            let text = serde_json::to_string_pretty(&json!({"property": "C07", "sub": "history", "payload": {"history": h.to_json()}, "note": m})).unwrap();
+            let _ = std::fs::write(format!("{dir}/silent-{:016x}.json", hash_str(&text)), text);
+            drop(scratch);
+            let scratch = Scratch::new("c07");
+            execute(env, &scratch, h)
+        }
+        v => v,
+    }
+}
+
 fn classes_of(h: &Hist) -> Vec<String> {
     let mut c: Vec<String> = vec![];
     let mut kinds: BTreeMap<&str, u32> = BTreeMap::new();
@@ -550,13 +603,16 @@ fn outcome_of(ctx: &Ctx, h: &Hist, v: Verdict) -> Outcome {
             ctx.note_add("oracle_points", rep.checks as u64);
             ctx.note_add("documents_compared", rep.compared as u64);
             ctx.note_add(
-                "observed_not_asserted:open_documents_showing_outdated_diagnostics_until_touched",
+                "oracle_documents_equal_up_to_listed_staleness(published-stale:dependent-not-republished)",
                 rep.stale_views as u64,
             );
             ctx.note_add(
                 "oracle_points_equal_up_to_listed_message_variance(dropped-name-still-known)",
                 rep.tolerated_name_variance as u64,
             );
+            if rep.stale_views > 0 {
+                classes.push("listed_staleness_tolerated".into());
+            }
             if rep.tolerated_name_variance > 0 {
                 classes.push("listed_message_variance_tolerated".into());
             }
@@ -589,6 +645,7 @@ fn outcome_of(ctx: &Ctx, h: &Hist, v: Verdict) -> Outcome {
         ),
         Verdict::OffModel => Outcome::skip("the server started a background run the protocol model does not predict"),
         Verdict::Hang(m) => {
+            // reached only when the retry fell silent as well (see `execute_retrying`)
             let dir = format!("{}/replays/C07", vcore::run::out_root());
             let _ = std::fs::create_dir_all(&dir);
             let text = serde_json::to_string_pretty(&json!({"property": "C07", "sub": "history", "payload": {"history": h.to_json()}, "note": m})).unwrap();
@@ -636,8 +693,7 @@ pub fn run(ctx: &Ctx) {
         let Some(h) = p.get("history").and_then(Hist::from_json) else {
             return Outcome::skip("payload is not a history");
         };
-        let scratch = Scratch::new("c07");
-        let v = execute(&env, &scratch, &h);
+        let v = execute_retrying(ctx, &env, &h);
         outcome_of(ctx, &h, v)
     });
 
@@ -654,8 +710,7 @@ pub fn run(ctx: &Ctx) {
             if h.checks.is_empty() {
                 return Outcome::skip("history never has an open document");
             }
-            let scratch = Scratch::new("c07");
-            let v = execute(&env, &scratch, &h);
+            let v = execute_retrying(ctx, &env, &h);
             outcome_of(ctx, &h, v)
         },
     );
@@ -664,7 +719,7 @@ pub fn run(ctx: &Ctx) {
     ctx.assume("a fresh server that has opened the same documents, finished background analysis and analysed each document once more (didChange with unchanged text) is the reference; its answer for the unchanged text is taken as 'what a freshly started server publishes once background analysis is complete'");
     ctx.assume("diagnostics are compared as multisets of (range, severity, code, message); relatedInformation is not compared");
     ctx.assume("the editor changes files on disk only through save / rename / delete / create, and announces rename and delete (will*/did* file operations); one message is outstanding at a time");
-    ctx.assume("diagnostics of open documents that merely were not re-published after another file changed are counted, not asserted (the server only publishes for the document named in didOpen/didChange)");
+    ctx.assume("the reference for 'last published' diagnostics of an open document is what the fresh server publishes for it after all buffers are opened, background analysis is complete and the document is analysed once more (a fresh server's own first publish for a document opened early predates the later buffers)");
     ctx.finish(
         "exploration",
         "generated project (1-2 packages, 1-3 modules over 2-5 files, cross-file widths/types/enum values/functions/imports/instances) + generated history of 5-15 editor steps (24 in thorough); non-trivial = the history changes (renames, removes or retypes) a declaration that another file mentions AND a diagnostic was published at some point AND at least one document was compared with a fresh server; distinct by history content",
